@@ -217,10 +217,20 @@ def nontrivial(evs):
     return False
 
 
+CHUNK = 12000   # scripts per Go/TLC round (TLC loads a whole trace file into memory)
+
+
 def run_batch(ctx, scripts, tag):
-    return vlib.run_batch(ctx, tag=tag, scripts=scripts, pkg_rel=PKG, pkgname="report", files=HARNESS,
-                          test="TestVerifRRExec", trace_module="Trace_ReceiverReport.tla", nontrivial=nontrivial,
-                          xss="512m")
+    """vlib.run_batch in chunks; returns the concatenated event list (None if a chunk could not be executed)."""
+    allev = []
+    for n, i in enumerate(range(0, len(scripts), CHUNK)):
+        evs = vlib.run_batch(ctx, tag=tag if len(scripts) <= CHUNK else "%s.%d" % (tag, n), scripts=scripts[i:i + CHUNK],
+                             pkg_rel=PKG, pkgname="report", files=HARNESS, test="TestVerifRRExec", trace_module="Trace_ReceiverReport.tla",
+                             nontrivial=nontrivial, xss="512m")
+        if evs is None:
+            return None
+        allev += evs
+    return allev
 
 
 def gen_scripts(ctx, base, L, alpha, tsb, tsmid):
